@@ -242,19 +242,57 @@ def coverage_extra(cases, tier):
 
 # the three findings of round 1 (broadcast_shape / shape_take / shape_squeeze over clipped shapes) are repaired in /repo
 # (fixes/C11-*.diff).  Open: the decorator default ADDS the sizes of the three broadcast operands of view::where.
-_WHERE_TRIPLED = re.compile(r'^where\((cs|fx|fdf)\[([0-9,]+)\],fdf\[[0-9,]+\]\)$')
+_WHERE_LEAVES = re.compile(r'^where\(([a-z]+)\[([0-9,]+)\](?:,([a-z]+)\[([0-9,]+)\])?;([abs]{3})\)$')
+_CONST_KINDS = ('cs', 'fx')
+_CLIPPED_KINDS = ('cl', 'cld', 'cla')
+
+
+def _size_kind(kind, P):
+    """size type of `size<true>(leaf)`: ('known', n) | ('atMost', n) | ('any',)"""
+    if kind in ('cs', 'fx', 'fdf'):
+        return ('known', G.prod(P))
+    if kind in ('cl', 'cld', 'fdh'):
+        return ('atMost', G.prod(P))
+    if kind == 'cla':
+        return ('atMost', max(P) ** len(P))
+    return ('any',)
+
+
+def _bsize_step(z1, z2):
+    """mirror of NmVerif.Static.bsizeStep (broadcast_shape.hpp:544-556)"""
+    if z1 == ('known', 1) and z2[0] in ('known', 'atMost'):
+        return z2
+    if z1[0] in ('known', 'atMost') and z2 == ('known', 1):
+        return z1
+    return ('any',)
 
 
 def where_tripled_fixed_size(case):
-    """input class of C11.where-tripled-fixed-size: view::where(c, c, y) over leaf arrays where the type of c has fixed size 1
-    (constant shape or fixed buffer, every extent 1) and y has a fixed-size buffer with a run-time shape (kind fdf):
-    broadcast_size is then the constant size of y while the shape type is not constant, and fixed_size_v of the view is
-    the sum over the three broadcast operands (Lean: NmVerif.Static.whereTripled, Props.C11.where_counterexample)."""
+    """input class of C11.where-tripled-fixed-size for depth-1 programs `where(c, x, y)` over leaf arrays and number literals
+    (mirror of NmVerif.Static.whereTripled): the broadcast shape type is not a tuple of constants / clipped integers (some
+    array operand has a run-time shape) while the fold of index::broadcast_size over the operands' size types ends in a
+    compile-time constant - all operands but one have size type ct<1> (number literals, one-element fixed arrays) and that one
+    has a fixed-size buffer.  fixed_size_v of the view is then 3 x that constant."""
     m = re.search(r' e=(\S+) shapes=', case.req)
     if not m:
         return False
-    w = _WHERE_TRIPLED.match(m.group(1))
-    return bool(w) and G.prod(ints(w.group(2))) == 1
+    w = _WHERE_LEAVES.match(m.group(1))
+    if not w:
+        return False
+    leaves = {'a': (w.group(1), ints(w.group(2)))}
+    if w.group(3):
+        leaves['b'] = (w.group(3), ints(w.group(4)))
+    ops = [leaves.get(ch) for ch in w.group(5)]          # None = number literal
+    if any(ch != 's' and leaves.get(ch) is None for ch in w.group(5)):
+        return False
+    arrays = [o for o in ops if o is not None]
+    if all(k in _CONST_KINDS + _CLIPPED_KINDS for k, _ in arrays):
+        return False            # constant or clipped broadcast shape: the size comes from the shape type
+    z = None
+    for o in ops:
+        zo = ('known', 1) if o is None else _size_kind(*o)
+        z = zo if z is None else _bsize_step(z, zo)
+    return z[0] == 'known'
 
 
 KNOWN_PREDICATES = {'where_tripled_fixed_size': where_tripled_fixed_size}
